@@ -15,6 +15,11 @@ UT = "bluesky.utils"
 
 def run(ctx):
     rm = REModel(ctx.repo)
+    # a callback that has seen a run's start document sees its stop: the run counts as open from before its start is emitted, so that the
+    # engine's cleanup closes it when a consumer raises on the start document (seeds C19-a, C19-c)
+    from . import c01
+
+    q.relabelled(ctx, "C01.D2", "C19.D4", c01.d2_run_is_open_typestate, rm)
     repo = rm.repo
     ctx.explanation = (
         "Decided: D1 the delivery chain emit -> emit_sync -> Dispatcher.process -> CallbackRegistry.process calls the next stage exactly "
